@@ -8,6 +8,9 @@ CONSTANTS
   Dev_IdZeroAfterMainRemoved = FALSE
   Dev_TerminateKeepsObjects = FALSE
   Dev_FailedAddLeavesEntry = TRUE
+  ClientSide = FALSE
+  Dev_ClientRemoveKeepsEntry = FALSE
+  Dev_ClientLateCallDropped = FALSE
 CONSTRAINT Bounded
 INVARIANTS TypeOK UniqueLiveIds TerminateHookExactlyOnce SubscribersTold NoCrash
 PROPERTIES NoInvocationAfterRemoval NoLateSubscription OthersUnaffected
